@@ -421,6 +421,7 @@ class Env:
 
     # ------------------------------------------------------------------ abort / handler / sleep
     def abort_if(self) -> bool:
+        self._fault("abort")
         sc = self._next("poll")
         ans = bool(sc["ans"]) if sc else False
         self.trace.append({"e": "poll", "ans": ans, "t": self.now()})
@@ -821,14 +822,27 @@ def make_entry(entry: str, env: Env, ctor: dict, call: dict, breaker=None):
         classifier = kw.pop("classifier")
         kw["default_strategy"] = kw.pop("strategy")
         kw["class_strategies"] = kw.pop("strategies")
-        obj = getattr(rp, base).from_config(RetryConfig(**kw), classifier=classifier)
+        # one RetryConfig object serves two policies and is edited in between: the decoy policy
+        # is built first, from decoy strategies and caps
+        rc_obj = RetryConfig(**dict(kw, default_strategy=lambda ctx: 123.0, class_strategies=None,
+                                    max_attempts=9, per_class_max_attempts=None))
+        getattr(rp, base).from_config(rc_obj, classifier=classifier)
+        for k in ("default_strategy", "class_strategies", "max_attempts", "per_class_max_attempts"):
+            setattr(rc_obj, k, kw[k])
+        obj = getattr(rp, base).from_config(rc_obj, classifier=classifier)
     elif base in ("Retry", "AsyncRetry"):
         obj = getattr(rp, base)(**ctor)
     elif base in ("Policy", "AsyncPolicy"):
         inner = (rp.AsyncRetry if is_async else rp.Retry)(**ctor)
         obj = getattr(rp, base)(retry=inner, circuit_breaker=breaker)
     elif base in ("RetryPolicy", "AsyncRetryPolicy"):
-        obj = getattr(rp, base)(**ctor)
+        # the sugar object forwards attribute assignments to its retry component: built with
+        # neutral caps, configured by assignment afterwards
+        from datetime import timedelta
+        obj = getattr(rp, base)(**dict(ctor, max_attempts=7, max_unknown_attempts=None, deadline_s=9999.0))
+        obj.max_attempts = ctor["max_attempts"]
+        obj.max_unknown_attempts = ctor["max_unknown_attempts"]
+        obj.deadline = timedelta(seconds=ctor["deadline_s"])
     elif base in ("decorator", "async-decorator"):
         deco_kw = dict(ctor)
         deco_kw.update({k: v for k, v in call.items()
@@ -844,7 +858,16 @@ def make_entry(entry: str, env: Env, ctor: dict, call: dict, breaker=None):
             def target(x, *, y=None, z=3):
                 assert (x, y, z) == (1, 2, 3)
                 return env.op()
-        wrapped = rp.retry(**deco_kw)(target)
+        # one decorator object decorates several functions
+        factory = rp.retry(**deco_kw)
+        if is_async:
+            async def decoy_fn():
+                return None
+        else:
+            def decoy_fn():
+                return None
+        factory(decoy_fn)
+        wrapped = factory(target)
         return lambda mode: wrapped(1, y=2)
     else:
         raise AssertionError(entry)
